@@ -151,6 +151,15 @@ Fixpoint ok16 (g : registry) (ops : list cop) (obs : list cobs) : bool :=
 (* C17: on registries whose functions honour their declared target, each replayed event is the
    full composition of first-registered upcasters or, on failure, the original, with one error
    report per failure; offset/timestamp never change. (apply is proved equal to the chain spec.) *)
+(* whatever the registered functions do: what the callback sees is the original event, or an event of a type from which
+   no upcaster is registered - a chain is never left half way *)
+Definition whole_or_nothing (g : registry) (log : list (name * trail)) (evs : list seen) : bool :=
+  forallb (fun e => let '(i, ty, d, _) := e in
+             match nth_error log i with
+             | Some (t0, d0) => (Nat.eqb ty t0 && list_eqb Nat.eqb d d0) || negb (existsb (fun u => Nat.eqb (u_from u) ty) g)
+             | None => false
+             end) evs.
+
 Fixpoint ok17 (fns : list fnspec) (log : list (name * trail)) (g : registry) (racy : bool)
          (ops : list cop) (obs : list cobs) : bool :=
   match ops, obs with
@@ -162,7 +171,7 @@ Fixpoint ok17 (fns : list fnspec) (log : list (name * trail)) (g : registry) (ra
       (if honours_b fns g && negb racy then
          let '(evs', errs') := replay_log fns g 0 log in
          negb d && list_eqb seen_eqb evs evs' && list_eqb err_eqb errs errs'
-       else true) && ok17 fns log g racy r ro
+       else true) && whole_or_nothing g log evs && ok17 fns log g racy r ro
   | CRace a1 b1 f1 a2 b2 f2 :: r, ORace x1 x2 :: ro =>
       (* the order of two accepted same-source registrations is not observable: stop judging chains *)
       ok17 fns log (add_if x2 (add_if x1 g a1 b1 f1) a2 b2 f2)
